@@ -5,6 +5,10 @@ VERIF = os.path.dirname(os.path.dirname(os.path.abspath(__file__)))
 ALL = ["C%02d" % i for i in range(1, 21)]
 
 CLAIMED = {
+ "C04": dict(
+    text="Generated netlist documents covering every attribute combination of the exchange format (soft with scalar / per-region areas, centre, aspect ratio scalar / interval, rectangles in regions; hard, flippable, fixed, terminal; nets of any arity with repeated members, weights absent / 1 / int / float; YAML-sensitive names), loaded, written, re-read and compared field by field with ==; the second write must be textually identical and writing must not alter the object.",
+    note="Round-trip oracle: the reader is on both sides, so reader defects that are consistent across both loads are C05's business, not C04's.",
+    technique="property-based testing (Hypothesis) with a write/read round-trip oracle", ref="4/C04"),
  "C11": dict(
     text="Generated dies (lattice, blockages / specialised / fixed regions) refined with generated aspect-ratio limits (half of them in [1.42, 2), where the count-driven phase matters) and counts 1..60, and empty dies gridded 1..8 x 1..8; oracle: count reached, every new region inside exactly one former refinable region with the same tag, children tile their parent, every ratio <= r, blockages and fixed regions untouched (same objects, same geometry).",
     note="Trusted: exact geometry on the float results taken as exact reals, relative tolerance 1e-9 (1e-12 on the ratio). Dies without refinable region and initial_grid(1,1) are outside the domain.",
